@@ -16,6 +16,9 @@ CHECKS = {
  "C15": dict(cat="model_checking", tech="TLA+ predecessor relation over Chess.tla (RevMove.tla) + TLC trace validation",
    text="spec/RevMove.tla defines the predecessor relation and the un-move that must restore P from Q=Play(P,m). TLC checks on implementation traces: completeness (for every legal move of sampled positions the un-move list of Q contains m with exactly P's captured piece, castle mask and ep state, in both includeAllEpSquares modes) and consistency (every sampled listed un-move, restored by the real unMakeMove, yields a position where the move is legal and leads back to Q).",
    note="Trusted: TLC, Chess.tla/RevMove.tla, harness/h_revmove.cpp. Completeness is over sampled (P,m) pairs."),
+ "C03": dict(cat="model_checking", tech="TLA+ rule book + search-output trace specification (Tr_SearchOut.tla) validated by TLC against real engine sessions",
+   text="Seeded single-search UCI sessions (limit kinds x options x 4 synthetic nets x root classes incl. mate/stalemate/single-move/hmc>=97 roots) are run against the real engine binary; TLC validates every info-pv line and the bestmove/ponder line against the rule book: pv is a path of legal moves from the root, first move among the (search)moves, score range and mate encoding, at most one bound flag, multipv indices bounded and first moves of one report pairwise distinct, bestmove legal and in searchmoves, null move iff no legal move, ponder move legal.",
+   note="Trusted: TLC, Chess.tla/Tr_SearchOut.tla, the python UCI driver (tools/uci.py, tools/sessions.py); synthetic nets replace the emptied network file."),
 }
 
 NOT_APPLICABLE = {
